@@ -259,6 +259,61 @@ class IDict:
         self.d = dict(new)
 
 
+class BoundDict:
+    """What `self.cache` evaluates to: the dict object the attribute is bound to AT THE TIME OF THE ATTRIBUTE LOAD.
+    Every operation parks first and then acts on that dict object - also after `self.cache = {}` has rebound the
+    attribute (a stale alias).  Holding a BoundDict keeps the old dict, hence its values, alive, as in CPython."""
+
+    def __init__(self, sched, name, d):
+        self.s, self.name, self.d = sched, name, d
+
+    def __getitem__(self, k):
+        self.s.point(self.name + '.get')
+        return self.d[k]
+
+    def __setitem__(self, k, v):
+        self.s.point(self.name + '.set')
+        self.d[k] = v
+
+    def __delitem__(self, k):
+        self.s.point(self.name + '.del')
+        del self.d[k]
+
+    def __contains__(self, k):
+        self.s.point(self.name + '.in')
+        return k in self.d
+
+    def get(self, k, default=None):
+        self.s.point(self.name + '.get')
+        return self.d.get(k, default)
+
+    def pop(self, k, *a):
+        self.s.point(self.name + '.del')
+        return self.d.pop(k, *a)
+
+    def keys(self):
+        self.s.point(self.name + '.keys')
+        return list(self.d.keys())
+
+    def values(self):
+        self.s.point(self.name + '.keys')
+        return list(self.d.values())
+
+    def items(self):
+        d = self.d
+        return _View(self.s, self.name, lambda: iter(d.items()))
+
+    def __iter__(self):
+        return _Iter(self.s, self.name, iter(self.d))
+
+    def __len__(self):
+        return len(self.d)
+
+    def clear(self):
+        self.s.point(self.name + '.clear')
+        self.d.clear()
+
+
 class ICaches(dict):
     """`CacheSet.caches`: an access parks only while the class has no entry yet (once installed the entry
     never changes, so later reads commute with everything)."""
@@ -339,7 +394,9 @@ def env():
                 if self._building:
                     self._weak.d = dict(value)
                 else:
-                    self._weak.rebind(value)
+                    # the code in scope never rebinds expiredCache (only clear() would empty it in place): loads of
+                    # self.expiredCache therefore commute with everything and are not scheduling points
+                    raise AssertionError('unmodelled: self.expiredCache rebound')
             elif name == 'cullCount':
                 if not self._building:
                     IFactory.sched.point('cc.write')
@@ -349,7 +406,13 @@ def env():
 
         @property
         def cache(self):
-            return self._strong
+            # the attribute load is a shared access of its own: `self.cache = {}` (expireAll) rebinds the attribute,
+            # so WHEN it is read decides which dict a later operation uses.  The rebinding needs the cache lock,
+            # hence a load by the lock holder commutes with everything and is not a scheduling point.
+            s = IFactory.sched
+            if not self._building and s is not None and s.me() is not None and self.lock.holder != s.me():
+                s.point('strong.load')
+            return BoundDict(s, 'strong', self._strong.d)
 
         @property
         def expiredCache(self):
